@@ -182,3 +182,12 @@ def check_cli(run, rt, owner, attr, argv, expect, label, truthy=()):
 
 def held(run, label, cls):
     run.held(f"cli.{label}[plumbing]", cls)
+
+
+SEX_SPELLINGS = {True: ("f", "x", "female", "Female"), False: ("m", "y", "male", "Male")}
+
+
+def sex_arg(female, k):
+    """One of the spellings the parsers accept for --sample-sex (cycled by k)."""
+    v = SEX_SPELLINGS[bool(female)]
+    return v[k % len(v)]
